@@ -715,10 +715,15 @@ def load_tables():
             exec(compile(open(os.path.join(d, fn)).read(), fn, "exec"), ns)
             METHODS.extend(ns.get("METHODS", []))
 
-def _rep(spec, m):
-    return {"python": "%s:%s.%s" % (spec["file"], spec["cls"], m["func"]), "property": m.get("prop"),
-            "tie_theorem": ("Acra.Props.%s.%s" % (m["prop"], m["theorem"])) if m.get("theorem") else None,
+def _rep(spec, m, prop=None, theorem=None):
+    prop, theorem = prop or m.get("prop"), theorem or m.get("theorem")
+    return {"python": "%s:%s.%s" % (spec["file"], spec["cls"], m["func"]), "property": prop,
+            "tie_theorem": ("Acra.Props.%s.%s" % (prop, theorem)) if theorem else None,
             "part": "whole method (state-passing: object in -> object out, result)"}
+
+def _reps(spec, m, **kw):
+    """one report entry for the method's anchor property, one for each further (property, theorem) of `also`"""
+    return [dict(_rep(spec, m), **kw)] + [dict(_rep(spec, m, p, t), **kw) for p, t in m.get("also", [])]
 
 def generate():
     """translate every class of the METHODS tables; returns (errors, changed lean modules, report).  A class file is
@@ -733,21 +738,21 @@ def generate():
         except TranslationError as e:
             errors.append("Src.Cls.%s: %s" % (spec["lean"], e))
             for m in spec["methods"]:
-                report.append(dict(_rep(spec, m), translated=False, error=str(e)))
+                report += _reps(spec, m, translated=False, error=str(e))
             continue
         except Exception as e:
             errors.append("Src.Cls.%s: cannot translate %s: %r" % (spec["lean"], spec["file"], e))
             for m in spec["methods"]:
-                report.append(dict(_rep(spec, m), translated=False, error=repr(e)))
+                report += _reps(spec, m, translated=False, error=repr(e))
             continue
         ok = True
         for m, good, what in results:
             if good:
-                report.append(dict(_rep(spec, m), translated=True, lean="Acra.Gen.Src.Cls.%s.%s" % (spec["lean"], what)))
+                report += _reps(spec, m, translated=True, lean="Acra.Gen.Src.Cls.%s.%s" % (spec["lean"], what))
             else:
                 ok = False
                 errors.append("Src.Cls.%s.%s: %s" % (spec["lean"], m["func"], what))
-                report.append(dict(_rep(spec, m), translated=False, error=what))
+                report += _reps(spec, m, translated=False, error=what)
         if not ok:
             continue
         path = os.path.join(OUT, spec["lean"] + ".lean")
